@@ -202,10 +202,8 @@ class SymText:
         return self[a:]
 
     def rstrip(self, chars=None):
-        if chars is None:
-            raise E.HarnessError("SymText.rstrip() without argument")
         b = len(self)
-        while b > 0 and self.test(b - 1, iset_of_chars(chars)):
+        while b > 0 and self.test(b - 1, _space_set() if chars is None else iset_of_chars(chars)):
             b -= 1
         return self[:b]
 
@@ -214,7 +212,16 @@ class SymText:
             yield SymChar(self.base, self.start + j)
 
     def __add__(self, o):
-        raise E.HarnessError("concatenation of symbolic text")
+        return SymRope([self] + _pieces(o))
+
+    def __radd__(self, o):
+        return SymRope(_pieces(o) + [self])
+
+    def partition(self, sep):
+        j = self.find(sep)
+        if j < 0:
+            return self, "", ""
+        return self[:j], self[j : j + 1], self[j + 1 :]
 
     def span(self):
         return (self.start, self.start + len(self))
@@ -270,6 +277,103 @@ def sym_getitem(d, key):
     from . import proxies
 
     return proxies.sym_getitem(d, key)
+
+
+def _space_set():
+    from .sremodel import category
+
+    return category("CATEGORY_SPACE")
+
+
+def _pieces(o):
+    if isinstance(o, SymRope):
+        return list(o.pieces)
+    if isinstance(o, (str, SymText)):
+        return [o]
+    raise E.HarnessError(f"concatenation of symbolic text with {type(o).__name__}")
+
+
+class SymRope:
+    """concatenation of symbolic texts and plain strings (what the parser builds from adjacent string literals).
+    Supports what the parser does with such a value: +, startswith, rstrip, slicing, len, formatting."""
+
+    def __init__(self, pieces):
+        self.pieces = [p for p in pieces if len(p) > 0]
+
+    def __len__(self):
+        return sum(len(p) for p in self.pieces)
+
+    def __add__(self, o):
+        return SymRope(self.pieces + _pieces(o))
+
+    def __radd__(self, o):
+        return SymRope(_pieces(o) + self.pieces)
+
+    def startswith(self, lit, pos=0):
+        if pos != 0 or isinstance(lit, tuple):
+            raise E.HarnessError("SymRope.startswith: only a literal at position 0")
+        if not lit:
+            return True
+        if not self.pieces or len(lit) > len(self.pieces[0]):
+            if len(lit) > len(self):
+                return False
+            raise E.HarnessError("SymRope.startswith across pieces")
+        return self.pieces[0].startswith(lit)
+
+    def rstrip(self, chars=None):
+        ps = list(self.pieces)
+        while ps:
+            last = ps[-1].rstrip(chars) if chars is not None or isinstance(ps[-1], SymText) else ps[-1].rstrip()
+            if len(last) == len(ps[-1]):
+                break
+            ps[-1] = last
+            if len(last) > 0:
+                break
+            ps.pop()
+        return SymRope(ps)
+
+    def __getitem__(self, x):
+        if not isinstance(x, slice):
+            raise E.HarnessError("SymRope: only slices")
+        a, b, st = x.indices(len(self))
+        if st != 1:
+            raise E.HarnessError("SymRope: extended slice")
+        out = []
+        off = 0
+        for p in self.pieces:
+            lo, hi = max(a - off, 0), min(b - off, len(p))
+            if lo < hi:
+                out.append(p[lo:hi])
+            off += len(p)
+        return SymRope(out)
+
+    def __eq__(self, o):
+        if isinstance(o, SymRope):
+            return self is o or (len(self.pieces) == len(o.pieces) and all(a is b for a, b in zip(self.pieces, o.pieces)))
+        if isinstance(o, str):
+            if len(o) != len(self):
+                return False
+            off = 0
+            for p in self.pieces:
+                if not (p == o[off : off + len(p)]):
+                    return False
+                off += len(p)
+            return True
+        return False
+
+    def __ne__(self, o):
+        return not self.__eq__(o)
+
+    def __hash__(self):
+        return 7
+
+    def __str__(self):
+        return "".join(str(p) for p in self.pieces)
+
+    __repr__ = __str__
+
+    def __format__(self, spec):
+        return str(self)
 
 
 _ND_BLOCKS = None
